@@ -74,7 +74,10 @@ fn next_backup_num(file: &Path) -> Result<u64> {
             current = current.max(num);
         }
     }
-    Ok(current + 1)
+    // u64::MAX may already be taken; wrapping round to 0 would hand out
+    // a number that is not above the existing ones (and may be in use).
+    current.checked_add(1)
+        .ok_or(XcpError::InvalidArguments(format!("No backup number left for {:?}", file)).into())
 }
 
 // A candidate is a numbered backup of `base_file` if its name is
